@@ -300,6 +300,23 @@ def _where(cond, *args):
     raise SymError("numpy.where on symbolic arrays")
 
 
+@implements(np.poly)
+def _poly(roots):
+    """monic polynomial with the given roots (numpy.poly on a 1-D sequence): repeated multiplication by (z - r)"""
+    r = to_symarray(roots)
+    if r.ndim != 1:
+        raise SymError("numpy.poly of a %d-D symbolic array" % r.ndim)
+    coef = [as_sym(1)]
+    for root in r:
+        root = as_sym(root)
+        nxt = [coef[0]]
+        for i in range(1, len(coef)):
+            nxt.append(coef[i] - root * coef[i - 1])
+        nxt.append(-root * coef[-1])
+        coef = nxt
+    return SymArray.make(coef)
+
+
 @implements(np.sinc)
 def _sinc(x):
     from . import stubs_math
